@@ -43,6 +43,8 @@ def check(ctx):
         qs.append(Query('h_go_deep', gsa, 'h_go_deep', us2, timeout=1500 if quick else 3000, sample=smp, extra=sc.EXTRA, max_unwind={'*': 60}))
         ws.append(Query('w_h_go_deep', gsaw, 'h_go_deep', us2, timeout=1500 if quick else 3000, meta={'of': 'h_go_deep'}, expect='witness', extra=sc.EXTRA, max_unwind={'*': 60}))
     res = ctx.run_queries(qs + ws, par=4, label='c10')
+    rb, wb = sc.run_b(ctx, 'C10', [(40, False, [], ''), (41, False, [], ''), (41, True, [], ''), (79, True, [], '')], ['C10'])
+    res += rb + wb
     wit = [r for r in res if r.q.expect == 'witness']; res = [r for r in res if r.q.expect != 'witness']
     for r in res:       # assertions of other properties in the shared Level A harness are not C10's business
         if r.status == 'fail':
@@ -67,7 +69,7 @@ def check(ctx):
         return {'confirmed': None, 'strict': True, 'key': r.q.name, 'path': path, 'text': '%s: %s' % (r.q.name, '; '.join(d for _, d in r.failed[:2]))}
     return report.finish(ctx, res, wit, replay=replay,
         assumptions=mc.ASSUME[:2] + sc.ASSUME[:5] + ['NOT covered: the I/O layer (uci.cpp: searchmoves[512] parsing, logger), std::vector/std::map internals, heap exhaustion',
-                     'NOT covered yet: search()/quiescence_search() stack indices and MOVE_LIST rows (one-node Level B harness)',
+                     'search()/quiescence_search(): one node at stack indices 40, 41 (search) and 41, 79 (quiescence) with every depth consistent with index + depth <= 80: children are only called with an existing stack slot, PV copies stay inside the arrays',
                      'uninitialised values: clang materialises them as undef in the IR; the translator turns undef into 0, so uses of uninitialised values are not detected by these queries',
                      'array-bounds/pointer/shift/overflow checks of CBMC are also active in every other check of this suite (C01-C04, C07, C11-C16, C18-C20) on the functions listed there'],
         bounds={'history counter': 'boundary values 1, 799, 800 (thorough: 1,2,399,400,401,798,799,800) with symbolic position and move', 'piece count': '0..9 before add_piece', 'depth limit': '41..60 with up to %d completed iterations' % itmax, 'material (history harness)': [material.name(x) for x in ms]})
